@@ -183,9 +183,7 @@ func (te *TypeEnv) sortOf1(t types.Type) *Sort {
 		return arraySort(sortInt, te.sortOf(u.Elem()))
 	case *types.Struct:
 		name := te.typeStr(t)
-		if _, named := t.(*types.Named); !named {
-			name = "struct#" + fmt.Sprint(len(sortTab))
-		}
+		_ = fmt.Sprint
 		return dataSort("R_"+name, func(dt *Datatype) {
 			if u.NumFields() == 0 {
 				return
